@@ -35,6 +35,12 @@ func newPools() *pools {
 // groupValue picks a value a group's regex accepts.  bad: one that makes the
 // implicit conversion fail where possible.
 func (p *Program) groupValue(r *vlib.Rand, g Group, bad bool, uniq int) string {
+	if g.Vals != nil {
+		if bad && len(g.Bad) > 0 {
+			return vlib.Pick(r, g.Bad)
+		}
+		return vlib.Pick(r, g.Vals)
+	}
 	switch g.Re {
 	case `\d+`:
 		if bad {
@@ -78,9 +84,21 @@ func (p *Program) groupValue(r *vlib.Rand, g Group, bad bool, uniq int) string {
 func (p *Program) fragment(r *vlib.Rand, pt *Pattern, bad bool, uniq int) string {
 	s := pt.Word
 	for _, g := range pt.Groups {
+		if g.Nested {
+			continue
+		}
 		s += " " + p.groupValue(r, g, bad && r.Chance(60), uniq)
 	}
 	return s
+}
+
+// PatternTexts returns the text of every pattern written in the program.
+func (p *Program) PatternTexts() []string {
+	var out []string
+	for _, pt := range p.patterns {
+		out = append(out, pt.Text)
+	}
+	return out
 }
 
 // LinePatterns returns the patterns that are matched against input lines.
